@@ -62,11 +62,24 @@ func (c *tobeCircuit) Define(api frontend.API) error {
 type frombeCircuit struct {
 	Bits []frontend.Variable
 	V    frontend.Variable
+	Keep []frontend.Variable // optional second copy of the bit string: the gadget's operand must still be this string afterwards
 }
 
 func (c *frombeCircuit) Define(api frontend.API) error {
 	v := abstractor.Call(api, prover.FromBinaryBigEndian{Variable: c.Bits})
 	api.AssertIsEqual(v, c.V)
+	if len(c.Keep) > 0 {
+		// a gadget is a function of its operands and leaves them alone: the caller's bit string is unchanged, recomposing it again gives
+		// the same element, and decomposing that element gives the string back
+		for i := range c.Keep {
+			api.AssertIsEqual(c.Bits[i], c.Keep[i])
+		}
+		api.AssertIsEqual(abstractor.Call(api, prover.FromBinaryBigEndian{Variable: c.Bits}), c.V)
+		back := abstractor.Call1(api, prover.ToReducedBigEndian{Variable: v, Size: len(c.Keep)})
+		for i := range c.Keep {
+			api.AssertIsEqual(back[i], c.Keep[i])
+		}
+	}
 	return nil
 }
 
@@ -143,6 +156,10 @@ func init() {
 					e = engineSolved(&frombeCircuit{Bits: make([]frontend.Variable, c.N)}, &frombeCircuit{Bits: varsOf(c.Emitted), V: vmod}, mod)
 					if e != nil {
 						fail("FromBinaryBigEndian(%v) is not %s: %s", c.Emitted, vmod, firstLine(e.Error()))
+					}
+					e = engineSolved(&frombeCircuit{Bits: make([]frontend.Variable, c.N), Keep: make([]frontend.Variable, c.N)}, &frombeCircuit{Bits: varsOf(c.Emitted), V: vmod, Keep: varsOf(c.Emitted)}, mod)
+					if e != nil {
+						fail("FromBinaryBigEndian(%v) used twice / followed by ToReducedBigEndian in one circuit: the bit string handed to the gadget is no longer the same string, or does not recompose / decompose to the same values: %s", c.Emitted, firstLine(e.Error()))
 					}
 					wrong := new(big.Int).Mod(new(big.Int).Add(vmod, big.NewInt(1)), mod)
 					if engineSolved(&frombeCircuit{Bits: make([]frontend.Variable, c.N)}, &frombeCircuit{Bits: varsOf(c.Emitted), V: wrong}, mod) == nil {
